@@ -15,6 +15,7 @@ structure G where
   spawns : Nat := 0
   roots : List (List Op) := []                  -- the operation lists of the driver's sending tasks, in spawn order
   inv : List (List Nat × List Op) := []         -- invocation log: (path, operations)
+  sunk : List Nat := []                         -- event ids written to event sinks, in write order
 
 def gstep (P : Prog) (l : Label) (s : St) (g : G) : G :=
   match l with
@@ -40,6 +41,15 @@ def gstep (P : Prog) (l : Label) (s : St) (g : G) : G :=
       { g with hpath := upd g.hpath m (g.path p.eid), opIdx := upd g.opIdx m 0, ops := upd g.ops m (P.react m p.payload),
                inv := g.inv ++ [(g.path p.eid, P.react m p.payload)] }
     | [] => g
+  | .push t i =>
+    match (s.task t).cur[i]? with
+    | some sub =>
+      if sub.st = .toPush then
+        match sub.dst with
+        | .sink _ => { g with sunk := g.sunk ++ [sub.eid] }
+        | _ => g
+      else g
+    | none => g
   | _ => g
 
 def xstep (P : Prog) (l : Label) (x : St × G) : Option (St × G) :=
@@ -81,6 +91,31 @@ inductive InTree (P : Prog) (roots : List (List Op)) : List Nat → Nat → Nat 
       InTree P roots π m p → (P.react m p)[k]? = some op → op[j]? = some (.box d, p', q) →
       InTree P roots (π ++ [k, j]) d p'
 
+/-- what is due at a path, whatever the kind of destination (mailbox, sink, dropped mailbox) -/
+inductive Due (P : Prog) (roots : List (List Op)) : List Nat → Dst → Nat → Prop
+  | spawn (i k j : Nat) (ops : List Op) (op : Op) (d : Dst) (p : Nat) (q : Bool) :
+      roots[i]? = some ops → ops[k]? = some op → op[j]? = some (d, p, q) → Due P roots [1, i, k, j] d p
+  | init (m k j : Nat) (op : Op) (d : Dst) (p : Nat) (q : Bool) :
+      P.isModel m = true → P.inSim m = true → (P.initOps m)[k]? = some op → op[j]? = some (d, p, q) →
+      Due P roots [0, m, k, j] d p
+  | child (π : List Nat) (m p k j : Nat) (op : Op) (d : Dst) (p' : Nat) (q : Bool) :
+      InTree P roots π m p → (P.react m p)[k]? = some op → op[j]? = some (d, p', q) →
+      Due P roots (π ++ [k, j]) d p'
+
+theorem Due.box {P : Prog} {roots : List (List Op)} {π : List Nat} {d p : Nat} (h : Due P roots π (.box d) p) :
+    InTree P roots π d p := by
+  cases h with
+  | spawn i k j ops op d p q h1 h2 h3 => exact InTree.spawn i k j ops op _ _ q h1 h2 h3
+  | init m k j op d p q h1 h2 h3 h4 => exact InTree.init m k j op _ _ q h1 h2 h3 h4
+  | child π m p k j op d p' q h1 h2 h3 => exact InTree.child π m p k j op _ _ q h1 h2 h3
+
+theorem InTree.due {P : Prog} {roots : List (List Op)} {π : List Nat} {d p : Nat} (h : InTree P roots π d p) :
+    Due P roots π (.box d) p := by
+  cases h with
+  | spawn i k j ops op d p q h1 h2 h3 => exact Due.spawn i k j ops op _ _ q h1 h2 h3
+  | init m k j op d p q h1 h2 h3 h4 => exact Due.init m k j op _ _ q h1 h2 h3 h4
+  | child π m p k j op d p' q h1 h2 h3 => exact Due.child π m p k j op _ _ q h1 h2 h3
+
 end NexoVerif.Net
 
 /-! ## Bookkeeping invariants of the ghost state -/
@@ -118,8 +153,20 @@ theorem mkSubs_nth {e : Nat} {op : Op} {j : Nat} {d : Dst} {p : Nat} {q : Bool} 
 
 /-- ghost frame: labels that do not touch the ghost state -/
 theorem gstep_other (P : Prog) (s : St) (g : G) (l : Label)
-    (h : (∃ t i, l = .push t i) ∨ (∃ t, l = .opDone t) ∨ (∃ t, l = .finish t)) : gstep P l s g = g := by
-  rcases h with ⟨t, i, rfl⟩ | ⟨t, rfl⟩ | ⟨t, rfl⟩ <;> rfl
+    (h : (∃ t, l = .opDone t) ∨ (∃ t, l = .finish t)) : gstep P l s g = g := by
+  rcases h with ⟨t, rfl⟩ | ⟨t, rfl⟩ <;> rfl
+
+/-- a push changes at most the log of sink writes -/
+theorem gstep_push_eq (P : Prog) (s : St) (g : G) (t i : Nat) : ∃ x, gstep P (.push t i) s g = { g with sunk := x } := by
+  simp only [gstep]
+  split
+  · split
+    · split
+      · exact ⟨_, rfl⟩
+      · exact ⟨g.sunk, rfl⟩
+    · exact ⟨g.sunk, rfl⟩
+  · exact ⟨g.sunk, rfl⟩
+
 
 structure BInv (s : St) (g : G) : Prop where
   rest : ∀ t, (s.task t).phase = .busy → (s.task t).rest = (g.ops t).drop (g.opIdx t)
@@ -130,6 +177,9 @@ structure BInv (s : St) (g : G) : Prop where
 
 theorem binv_init : BInv St.init {} := by
   constructor <;> simp [St.init]
+
+theorem binv_sunk {s : St} {g : G} (x : List Nat) (h : BInv s g) : BInv s { g with sunk := x } :=
+  ⟨h.rest, h.subs, h.boxes, h.arr, h.hP⟩
 
 theorem mem_setSt_meta {l : List Sub} {i : Nat} {st : SubSt} {x : Sub} (h : x ∈ setSt l i st) :
     ∃ y ∈ l, y.eid = x.eid ∧ y.dst = x.dst ∧ y.payload = x.payload := by
@@ -229,7 +279,9 @@ theorem binv_step (P : Prog) (l : Label) (s s' : St) (g : G) (hI : Inv s) (h : B
       have hlt : x.2 < s.nextEid := (b4 x.1 x.2 (handled_arrived hI (by cases x; exact hx))).1
       simp only [hold _ hlt, Bool.false_eq_true, if_false]
   | push t0 i =>
-    rw [gstep_other P s g _ (Or.inl ⟨t0, i, rfl⟩)]
+    obtain ⟨xs, hxs⟩ := gstep_push_eq P s g t0 i
+    rw [hxs]
+    apply binv_sunk
     obtain ⟨sub, hsub, hst, hcase⟩ := step_push_eq hs
     have hsubm : sub ∈ (s.task t0).cur := List.mem_of_getElem? hsub
     have hcur : ∀ (tk : Nat → Task), tk = upd s.task t0 { s.task t0 with cur := setSt (s.task t0).cur i .pushed } →
@@ -304,7 +356,7 @@ theorem binv_step (P : Prog) (l : Label) (s s' : St) (g : G) (hI : Inv s) (h : B
     · intro d e he; simp only [gstep, hmb]; rw [hn]; rw [ha] at he; exact b4 d e he
     · simp only [gstep, hmb]; rw [hhp, hh, b5]; simp [(b3 m p hp).2.2]
   | opDone t0 =>
-    rw [gstep_other P s g _ (Or.inr (Or.inl ⟨t0, rfl⟩))]
+    rw [gstep_other P s g _ (Or.inl ⟨t0, rfl⟩)]
     obtain ⟨hph, _, _, htask, sl, _⟩ := step_opDone_eq hs
     refine ⟨?_, ?_, ?_, ?_, ?_⟩
     · intro t hb
@@ -319,7 +371,7 @@ theorem binv_step (P : Prog) (l : Label) (s s' : St) (g : G) (hI : Inv s) (h : B
     · intro d e he; rw [sl.nextEid]; rw [sl.arrLog] at he; exact b4 d e he
     · rw [sl.handledP, sl.handled]; exact b5
   | finish t0 =>
-    rw [gstep_other P s g _ (Or.inr (Or.inr ⟨t0, rfl⟩))]
+    rw [gstep_other P s g _ (Or.inr ⟨t0, rfl⟩)]
     obtain ⟨hph, hcur, hrest, hnb, hcur', hoth, sl, _⟩ := step_finish_eq hs
     refine ⟨?_, ?_, ?_, ?_, ?_⟩
     · intro t hb
